@@ -47,7 +47,8 @@ type Scn struct {
 	// ApplyFrom: 0 = BlockCallbacks.ApplyEvent installed for every block; k in 1..8 = nil for the first k
 	// blocks of the run, installed afterwards; 9 = never installed
 	ApplyFrom int
-	// CfgV: cache configuration of abft.Store and vecfc.Index: 0 lite, 1 all sizes 0, 2 all sizes 1, 3 default
+	// CfgV: cache configuration of abft.Store and vecfc.Index: 0 lite, 1 all sizes 0, 2 all sizes 1, 3 default,
+	// 4..7 tiny roots cache (RootsNum 1..4 = fewer roots than one frame holds, RootsFrames 100), 8 RootsNum 2 / RootsFrames 2
 	CfgV int
 	Evs  []Ev
 
@@ -225,6 +226,10 @@ func storeCfg(v int) abft.StoreConfig {
 		return abft.StoreConfig{Cache: abft.StoreCacheConfig{RootsNum: 1, RootsFrames: 1}}
 	case 3:
 		return abft.DefaultStoreConfig(cachescale.Identity)
+	case 4, 5, 6, 7, 8: // tiny: fewer roots fit than one frame holds (RootsNum 1..4), several frames
+		rn := []uint{1, 2, 3, 4, 2}[v-4]
+		rf := []int{100, 100, 100, 100, 2}[v-4]
+		return abft.StoreConfig{Cache: abft.StoreCacheConfig{RootsNum: rn, RootsFrames: rf}}
 	}
 	return abft.LiteStoreConfig()
 }
@@ -539,7 +544,11 @@ func PickCheaters(r *rand.Rand, ws []uint32, want int) []bool {
 // Generate builds a scenario online: every event gets its frame from the real Build on a reference
 // instance and is then processed there.
 func Generate(r *rand.Rand, s *Scn, cfg GenCfg) {
-	ref := NewInst(s)
+	// the generating instance always runs with the lite cache configuration, whatever the scenario's
+	// instances will use: the DAG must not depend on the configuration under test
+	gs := *s
+	gs.CfgV = 0
+	ref := NewInst(&gs)
 	nv := len(s.VIDs)
 	ids := map[int]*tdag.TestEvent{}
 	own := make([][]int, nv)   // all own accepted events of this epoch, in creation order
@@ -937,8 +946,8 @@ func RandomScenario(r *rand.Rand, maxEvents int, probes bool) (*Scn, GenCfg, str
 		s.ApplyFrom = []int{1, 2, 3, 5, 9}[r.Intn(5)]
 	}
 	// caches of abft.Store and vecfc.Index: lite / all 0 / all 1 / default
-	s.CfgV = []int{0, 0, 1, 2, 3}[r.Intn(5)]
-	Stat("cfg_caches_" + []string{"lite", "zero", "one", "default"}[s.CfgV])
+	s.CfgV = []int{0, 0, 1, 2, 3, 4, 5, 6, 7, 8}[r.Intn(10)]
+	Stat("cfg_caches_" + []string{"lite", "zero", "one", "default", "tiny1", "tiny2", "tiny3", "tiny4", "tiny2x2"}[s.CfgV])
 	Stat("cfg_applyevent_from_" + strconv.Itoa(s.ApplyFrom))
 	if r.Intn(4) == 0 {
 		// the application seals every epoch at frame 1, 2, 3 or 5; up to three epochs
